@@ -24,9 +24,9 @@ Parts
 import itertools
 import random
 
-from rt.common import Workload, main, schema, codes
+from rt.common import Workload, main, schema
 from rt.c01_schema import SchemaModel
-from rt.c01 import (Env, Vocab, pick_defs, forests, special_groups, valued, EXT_WORD, UNKNOWN_WORD, DEF_PLAIN,
+from rt.c01 import (Env, Vocab, pick_defs, forests, special_groups, EXT_WORD, UNKNOWN_WORD, DEF_PLAIN,
                     DEF_VALUE, tokenize, d2_model_count)
 
 CL_FORM = "C04.spelling.path_form"
@@ -489,6 +489,8 @@ def part_rich(w, run, model, vocab, defs):
                 lst.insert(rng.randrange(len(lst) + 1), shuffled(x, rng) if isinstance(x, list) else x)
             elif f == 2:
                 lst.insert(rng.randrange(len(lst) + 1), [])          # '()'
+                if rng.random() < 0.4:
+                    lst.insert(rng.randrange(len(lst) + 1), [])      # ... twice: two empty groups are equal siblings too
             else:
                 k, g, top = specials[rng.randrange(len(specials))]
                 lst.insert(rng.randrange(len(lst) + 1), [clone(g)] if rng.random() < 0.5 else clone(g))   # nested too deep / second one
@@ -559,7 +561,8 @@ def part_witness(w, run, model, defs):
              ("(Def-expand/%s,(%s,%s))" % (DEF_PLAIN, a, b), "((%s,%s),Def-expand/%s)" % (a, b, DEF_PLAIN), CL_ORDER_D8),
              ("Label/abc,Label/ABC", "Label/abc,Informational-property/Label/ABC", CL_VCASE),
              ("Label/abc,Label/abc", "Label/abc,Informational-property/Label/abc", CL_FORM),
-             ("Red,Red", "Red , Red", CL_SPACE), ("Red,Red", "red,RED", CL_CASE)]
+             ("Red,Red", "Red , Red", CL_SPACE), ("Red,Red", "red,RED", CL_CASE),
+             ("Red,(),()", " Red , ( ) , ( ) ", CL_SPACE), ("(Red,()),Blue,()", "(),Blue,((),Red)", CL_ORDER)]
     for base, rew, cl in pairs:
         run.same(base, rew, cl, "fixed witness")
     return run.n - before
